@@ -108,6 +108,19 @@ theorem C16_open_sessions_cut (C : Crypto) (s : Sys) (c : Nat) (uname : Bytes) (
     · intro later hl
       exact (run_dead C true s1 later d hnl hl).2
 
+/-- **Acknowledgement first.** The response to an accepted removal is written to the remover's
+    still open transport (`resp`, never `dropped`) before any connection is closed — also when the
+    remover's own connection is one of those closed (self-removal, last-admin rule). -/
+theorem C16_ack_before_close (C : Crypto) (s : Sys) (c : Nat) (uname : Bytes) (me u : Uuid)
+    (hc : c ∈ s.live) (hme : (s.conns c).pv.client = some me)
+    (hver : (s.conns c).pv.verified = true) (hadm : isAdmin s.pairings me = true)
+    (hu : C.parseUuid uname = some u) :
+    ∃ closes : List Nat,
+      (procReq C true s c (.removePairing uname)).trace =
+        s.trace ++ Event.resp c .ack :: closes.map Event.close := by
+  obtain ⟨_, closes, h, _⟩ := C16_open_sessions_cut C s c uname me u hc hme hver hadm hu
+  exact ⟨closes, by simpa [List.append_assoc] using h⟩
+
 /-- **Last-admin rule.** If the removed controller was the only admin, every pairing is gone
     afterwards — so the cut of `C16_open_sessions_cut` applies to every previously paired
     controller. -/
